@@ -192,7 +192,9 @@ class LocalFileObjectStore(model.AbstractObjectStore):
         except FileNotFoundError as e:
             raise KeyError("No AAS object with id {} exists in local file database".format(x.id)) from e
         with self._object_cache_lock:
-            del self._object_cache[x.id]
+            # The object may be unknown to this store instance's cache (e.g. when it has been added or retrieved via
+            # another instance working on the same directory)
+            self._object_cache.pop(x.id, None)
         x.source = ""
 
     def __contains__(self, x: object) -> bool:
